@@ -17,6 +17,10 @@ THEOREMS = [
     "NakenVerif.Macro.stored_define_text_is_word_substitution_partial",
     "NakenVerif.Macro.include_transparent",
     "NakenVerif.Macro.repeat_copies",
+    "NakenVerif.Macro.repeat_one_is_body",
+    "NakenVerif.Macro.copies_add",
+    "NakenVerif.Macro.repeat_count_split",
+    "NakenVerif.Macro.repeat_monotone_prefix",
     "NakenVerif.Macro.tab_in_string_counterexample",
     "NakenVerif.Macro.string_semicolon_counterexample",
     "NakenVerif.Macro.param59_counterexample",
